@@ -323,6 +323,13 @@ EvalK15(P, e, env, st) ==
     IN  IF ~Ok(r.st) THEN R(U, r.st)
         ELSE LET v == Read(r.st, r.ref) IN IF IsU(v) THEN RU(r.st) ELSE R(v, r.st)
 
+\* a list of n copies of v (n evaluated first); more than 64 elements are outside the model
+EvalFill(P, e, env, st) ==
+    LET q == EvalSeq(P, <<e.n, e.v>>, 1, env, st)
+    IN  IF ~Ok(q.st) THEN R(U, q.st)
+        ELSE IF IsU(q.vs[1]) \/ IsU(q.vs[2]) \/ SmallIdx(q.vs[1]) < 0 \/ SmallIdx(q.vs[1]) > 64 THEN RU(q.st)
+        ELSE R(LV(e.et, [j \in 1..SmallIdx(q.vs[1]) |-> q.vs[2]]), q.st)
+
 Eval(P, e, env, st) ==
     CASE e.k = "lit" -> EvalK1(P, e, env, st)
       [] e.k = "id" -> EvalK2(P, e, env, st)
@@ -341,6 +348,8 @@ Eval(P, e, env, st) ==
       [] e.k = "lvr" -> EvalK15(P, e, env, st)
       [] e.k = "wenn" -> Eval(P, IF e.val THEN e.c ELSE [k |-> "un", op |-> "not", r |-> e.c], env, st)      \* wahr, wenn c  ==  c ;  falsch, wenn c  ==  nicht c
       [] e.k = "chain" -> Eval(P, Tree(e.items), env, st)      \* an unparenthesised operator chain means its precedence tree
+      [] e.k = "fillx" -> EvalFill(P, e, env, st)              \* <n> Mal <v> as an expression (trees exported from the real parser)
+      [] e.k = "unsup" -> RU(st)                               \* a construct the exporter of real trees does not translate: no meaning given
 
 (* reference denoted by an assignable: [ref, st]; an out-of-range index is a Laufzeitfehler *)
 RECURSIVE EvalLvK1(_,_,_,_), EvalLvK2(_,_,_,_), EvalLvK3(_,_,_,_)
@@ -365,6 +374,7 @@ EvalLv(P, lv, env, st) ==
     CASE lv.k = "id" -> EvalLvK1(P, lv, env, st)
       [] lv.k = "fld" -> EvalLvK2(P, lv, env, st)
       [] lv.k = "idx" -> EvalLvK3(P, lv, env, st)
+      [] lv.k = "unsup" -> [ref |-> Ref(0, <<>>), st |-> Fail(st, "unspec")]
 
 (* call: arguments are evaluated in parameter-declaration order; value parameters are copies in fresh locations,
    Referenz parameters are the caller's reference *)
@@ -576,6 +586,7 @@ Exec(P, s, env, st) ==
       [] s.k = "todo" -> ExecK14(P, s, env, st)
       [] s.k = "block" -> ExecK15(P, s, env, st)
       [] s.k = "cset" -> ExecK16(P, s, env, st)
+      [] s.k = "unsup" -> X(env, Fail(st, "unspec"), "next", U)
       [] s.k = "setis" -> ExecK2(P, s, env, st)          \* x ist <Literal>.  /  b ist wahr, wenn c.   - another spelling of the assignment
 
 (* the whole program: [out, sig]  sig = "ok" (exit 0) | "rterr" (Laufzeitfehler, exit 1) | "unspec" *)
